@@ -371,6 +371,65 @@ func c01Record(c *h.Ctx) error {
 		events++
 		c.Case(fmt.Sprint(tr))
 	}
+	// long messages: TLC cannot read 64 MiB, but the digest of P is the chaining value after P || pad(P), so the digest of
+	// P || pad(P) || x follows from the reported digest of P (MD4Extend in MD4.tla).  Both are asked of the real code; the
+	// lengths sit around 2^26 bytes (bit count 2^29) and, with longmax=1, 2^29 bytes (bit count 2^32).
+	longs := []uint64{1000, 1<<20 + 5, 1<<26 - 200, 1<<26 - 64, 1<<26 + 1}
+	if c.OptInt("longmax", 0) != 0 {
+		longs = append(longs, 1<<29-64, 1<<29+3)
+	}
+	chunk := make([]byte, 1<<20)
+	for i := range chunk {
+		chunk[i] = byte(i*7 + i>>8)
+	}
+	feed := func(m *md4.MD4, n uint64) {
+		for n > 0 {
+			k := uint64(len(chunk))
+			if n < k {
+				k = n
+			}
+			m.Write(chunk[:k])
+			n -= k
+		}
+	}
+	for li, n := range longs {
+		c.Emit([]byte(`{"op":"reset"}`))
+		pad := []byte{0x80}
+		for (n+uint64(len(pad)))%64 != 56 {
+			pad = append(pad, 0)
+		}
+		pad = binary.LittleEndian.AppendUint64(pad, n*8)
+		x := []byte{byte(li), 0xAA, 0x55, byte(n)}[:li%5]
+		m1 := md4.New()
+		feed(m1, n)
+		d := m1.Sum()
+		m2 := md4.New()
+		feed(m2, n)
+		m2.Write(pad)
+		m2.Write(x)
+		out := m2.Sum()
+		lp := n + uint64(len(pad))
+		b, _ := json.Marshal(map[string]interface{}{"op": "ext", "d": h.Bytes(d[:]), "q": lp >> 20, "r": lp & (1<<20 - 1), "x": h.Bytes(x), "out": h.Bytes(out[:])})
+		c.Emit(b)
+		if n <= 1<<26+1 && n >= 1<<26-64 { // the one-shot form on a contiguous buffer as well
+			whole := make([]byte, 0, lp+4)
+			for uint64(len(whole)) < n {
+				k := n - uint64(len(whole))
+				if k > uint64(len(chunk)) {
+					k = uint64(len(chunk))
+				}
+				whole = append(whole, chunk[:k]...)
+			}
+			d1 := md4.Sum(whole)
+			whole = append(append(whole, pad...), x...)
+			o1 := md4.Sum(whole)
+			b, _ := json.Marshal(map[string]interface{}{"op": "ext", "d": h.Bytes(d1[:]), "q": lp >> 20, "r": lp & (1<<20 - 1), "x": h.Bytes(x), "out": h.Bytes(o1[:])})
+			c.Emit(b)
+			events++
+		}
+		events++
+		c.Case(fmt.Sprintf("long:%d", n))
+	}
 	c.Exec(events)
 	c.Set("events", events)
 	return nil
